@@ -334,7 +334,13 @@ def block_diagonalize(
                 continue
             block = H[(i, j, *zero_order)]
             if block is not zero:
-                if isinstance(block, (sympy.MatrixBase, sympy.Expr)):
+                if isinstance(block, sympy.MatrixBase):
+                    known_nonzero = block.is_zero_matrix is False
+                elif isinstance(block, sympy.Expr):
+                    known_nonzero = block.is_zero is False
+                else:
+                    known_nonzero = True
+                if not known_nonzero:
                     # This may happen if the expression wasn't simplified enough.
                     warn(
                         "Cannot confirm that the unperturbed Hamiltonian is "
